@@ -8,13 +8,15 @@ NT     == Len(Traces)
 VARIABLES tid, l
 ASSUME \A t \in 1..NT : TLCSet(t, 0)
 
-\* core M: 5 assemblies on the 7 cells of two hex rings (or a 3x3 square), 3 fresh; three stationary patterns
+\* core M: 5 assemblies on the 7 cells of two hex rings (or a 3x3 square), 2 pooled, 3 fresh; three stationary patterns
 LayoutM == <<  <<"G", "F", "P">>, <<"G", "F", "P">>, <<"G", "S", "F">>, <<"G", "F">>, <<"G", "F", "P">>,
+               <<"G", "F", "P">>, <<"G", "S", "F">>,
                <<"G", "F", "P">>, <<"G", "S", "F">>, <<"G", "F", "P">>  >>
 PlaceM  == <<1, 2, 3, 5, 6>>
-\* core N: 7 assemblies on 9 cells, 4 fresh, taller stacks
+\* core N: 7 assemblies on 9 cells, 2 pooled, 4 fresh, taller stacks
 LayoutN == <<  <<"G", "S", "F", "P">>, <<"G", "S", "F", "P">>, <<"G", "F", "F", "P">>, <<"G", "S", "F", "P">>,
                <<"G", "F", "P">>, <<"G", "S", "F", "P">>, <<"G", "F", "F", "P">>,
+               <<"G", "S", "F", "P">>, <<"G", "F", "F", "P">>,
                <<"G", "S", "F", "P">>, <<"G", "F", "F", "P">>, <<"G", "S", "F", "P">>, <<"G", "F", "P">>  >>
 PlaceN  == <<1, 2, 3, 4, 6, 7, 9>>
 Unused == {}
